@@ -8,9 +8,9 @@ import time
 
 VERIF = os.path.dirname(os.path.dirname(os.path.abspath(__file__)))
 REPO = os.environ.get('VERIF_REPO', '/repo')
-WORK = os.path.join(VERIF, 'work')
-EVIDENCE = os.path.join(VERIF, 'evidence')
-REPLAYS = os.path.join(VERIF, 'replays')
+WORK = os.environ.get('VERIF_WORK', os.path.join(VERIF, 'work'))
+EVIDENCE = os.environ.get('VERIF_EVIDENCE', os.path.join(VERIF, 'evidence'))
+REPLAYS = os.environ.get('VERIF_REPLAYS', os.path.join(VERIF, 'replays'))
 GUARD = 'gtker_wow_messages_verif'
 NCPU = int(os.environ.get('VERIF_JOBS', os.cpu_count() or 4))
 
@@ -142,6 +142,8 @@ class Check:
             self.known_hits.append((key, what))
             return
         if confirmed:
+            if any(v['key'] == key for v in self.violations):
+                return
             self.violations.append({'key': key, 'what': what, 'replay': path})
         else:
             self.engine_disagreements.append({'key': key, 'what': what, 'replay': path})
